@@ -53,7 +53,7 @@ def run(ctx):
         'UTF-8, UTF-16 (BOM, little endian), Latin-1 and ASCII are specified in TLA+ and compared byte for byte; for '
         'table-driven encodings (cp1252, shift_jis, ...) only the branch contract and the round trip through Python\'s own '
         'codec are checked',
-        'decoding of malformed input is compared under the strict policy only',
+        'decoding of malformed input is compared under the strict policy, and under ignore/replace for ASCII (whose lenient decoding is specified)',
     ]
     res = tlc.run('MC_Text', 'MC_Text.cfg', workdir=ctx.work, workers=8, stdout_path=os.path.join(ctx.work, 'text.out'))
     ctx.tlc(res, 'Text codecs: RoundTrip, StrictFailsExactly, IgnoreNeverFails on every text up to length 3')
@@ -99,6 +99,15 @@ def run(ctx):
             got = outcome(encodeutils.safe_encode, payload, incoming=inc, encoding=enc)
             if not matches(got, ref['encode'], payload):
                 report('safe_encode-bytes', 'safe_encode(%r, incoming=%r, encoding=%r)' % (payload, inc, enc), got, ref['encode'], c)
+        elif k == 'decpol':
+            if ref.get('skip'):
+                continue
+            payload = bytes(ref['payload'])
+            inc = spell('ascii', rnd)
+            got = outcome(encodeutils.safe_decode, payload, incoming=inc, errors=c['pol'])
+            n += 1
+            if not matches(got, ref['decode'], payload):
+                report('safe_decode-policy', 'safe_decode(%r, incoming=%r, errors=%r)' % (payload, inc, c['pol']), got, ref['decode'], c)
         else:
             arg = {'str': 'A', 'bytes': b'A', 'other': rnd.choice([None, 5, ['A'], 1.5, bytearray(b'A')])}[c['kind']]
             fn = {'safe_decode': lambda: outcome(encodeutils.safe_decode, arg, incoming='utf-8'),
@@ -111,7 +120,7 @@ def run(ctx):
                 report('type-contract', '%s(%r)' % (c['fn'], arg), got, ref[key], c)
     ctx.cov['evaluations'] += n
     ctx.cov['distinct_nontrivial'] += len(res.records)
-    if len(counts) < 4:
+    if len(counts) < 5:
         raise MachineryError('vacuity: %s' % counts)
     ctx.stage('codec-replay', cases=counts, calls=n)
     ctx.sample({'case': res.records[len(res.records) // 2]})
